@@ -1107,6 +1107,8 @@ class CTRFileIO(_CryptoFileBase):
 
     @_raise_if_file_closed
     def write(self, data: bytes) -> int:
+        # any buffer is written byte by byte, like an ordinary file does: a view of wider items is not measured in items
+        data = memoryview(data).cast('B')
         with self._lock:
             cur_offset = self.tell()
             cipher = self._current_cipher
@@ -1151,6 +1153,8 @@ class TWLCTRFileIO(CTRFileIO):
 
     @_raise_if_file_closed
     def write(self, data: bytes) -> int:
+        # any buffer is written byte by byte, like an ordinary file does: a view of wider items is not measured in items
+        data = bytes(data)
         with self._lock:
             cur_offset = self.tell()
             padding_before = cur_offset % 0x10
